@@ -695,6 +695,18 @@ pub fn f_push(seed: u64, exhaustive_scripts: bool) -> Plan {
         if n > 0 {
             scripts.push(vec![Step::after(rng.below(200_000), Op::Publish { topic: topic.clone(), msgs: msgs(&mut rng, n as usize, true) })]);
         }
+        if !exhaustive_scripts && deleted.is_none() && rng.chance(120) {
+            // the subscription is deleted while a push round is working through a page of messages
+            // (the POSTs of one round start 5 ms apart when the endpoint is slow)
+            let victim = rng.pick(&push_subs).clone();
+            deleted = Some(victim.clone());
+            let bulk = rng.range(8, 30) as usize;
+            scripts.push(vec![
+                Step::after(rng.below(100_000), Op::Publish { topic: topic.clone(), msgs: msgs(&mut rng, bulk, false) }),
+                Step::new(Op::SleepUntilMultiple { period_us: interval as u64 * 1000, offset_us: rng.range(1, 12) * 5_000 + rng.below(5_000) }),
+                Step::new(Op::DeleteSub { sub: victim.clone() }),
+            ]);
+        }
         if !exhaustive_scripts && deleted.is_none() && rng.chance(150) {
             let victim = rng.pick(&push_subs).clone();
             deleted = Some(victim.clone());
@@ -711,6 +723,11 @@ pub fn f_push(seed: u64, exhaustive_scripts: bool) -> Plan {
         if !exhaustive_scripts && !topic_deleted && ph + 1 == n_phases && rng.chance(200) {
             topic_deleted = true;
             scripts.push(vec![Step::after(rng.range(50_000, 3_000_000), Op::DeleteTopic { topic: topic.clone() })]);
+        }
+        if n_pull > 0 && rng.chance(120) {
+            // a CreateSubscription with a push endpoint for the name of an existing pull subscription:
+            // rejected (ALREADY_EXISTS), and the pull subscription stays a pull subscription
+            scripts.push(vec![Step::after(rng.below(100_000), Op::CreateSub { sub: sub_name("proj-p", 0, 10), topic: topic.clone(), ack_deadline: dl, push: Some(PushSpec { endpoint: "http://push-9.test/hook".into(), attrs: Default::default(), oidc: None }) })]);
         }
         if n_pull > 0 && rng.chance(500) {
             scripts.push(vec![Step::after(rng.below(500_000), Op::Pull { sub: sub_name("proj-p", 0, 10), max: 100, immediate: true }), Step::new(Op::Ack { sub: sub_name("proj-p", 0, 10), sel: sel_mine(Pick::LastResponse) })]);
@@ -1093,6 +1110,12 @@ pub fn f_hostile(seed: u64) -> Plan {
         "x".repeat(17_000),
         "projects/p/topics/".to_string() + &"y".repeat(70_000) + "?",
         "ü".repeat(4_000),
+        // multi-byte characters at every alignment around the lengths at which an echo may be cut
+        "a".to_string() + &"ü".repeat(300),
+        "€".repeat(200),
+        "ab".to_string() + &"€".repeat(200),
+        "🚀".repeat(100) + "a",
+        "projects/p/topics/é".to_string() + &"é".repeat(400) + "?",
         "/".repeat(40),
         "projects-no-slash-but-long-enough-to-pass-len".into(),
     ];
@@ -1500,13 +1523,17 @@ pub fn f_consumers_saturated(seed: u64) -> Plan {
     plan.phases.push(Phase { scripts, advance_us: rng.below(300_000), audit: false });
     // burst + publish + cancellations, all at once
     let mut scripts: Vec<Vec<Step>> = Vec::new();
-    let n_burst = rng.range(14, 26);
-    let pub_pos = rng.below(n_burst);
+    // (with more than 16 requests behind the publish the mailbox is still full when the woken
+    // consumers pull again)
+    let n_burst = if rng.chance(500) { rng.range(14, 26) } else { rng.range(30, 50) };
+    let pub_pos = if n_burst >= 30 && rng.chance(600) { rng.below(8) } else { rng.below(n_burst) };
+    // half of the runs: a burst of acknowledgements only (requests that never signal consumers)
+    let acks_only = rng.chance(500);
     for i in 0..n_burst {
         if i == pub_pos {
             scripts.push(vec![Step::new(Op::Publish { topic: topic.clone(), msgs: msgs_r(&mut rng, 1, 2, false) })]);
         }
-        let op = match rng.below(3) {
+        let op = match if acks_only { 2 } else { rng.below(3) } {
             0 => Op::GetSub { sub: sub.clone() },
             1 => Op::ModAck { sub: sub.clone(), sel: Sel { mine: false, pick: Pick::None, extra: vec!["424242".into()], ..Sel::none() }, secs: 10 },
             _ => Op::Ack { sub: sub.clone(), sel: Sel { mine: false, pick: Pick::None, extra: vec!["424243".into()], ..Sel::none() } },
@@ -1732,6 +1759,53 @@ pub fn f_recreate(seed: u64) -> Plan {
         }
         if rng.chance(400) {
             s.push(Step::new(Op::DeleteSub { sub: sub.clone() }));
+        }
+        plan.phases.push(Phase { scripts: vec![s], advance_us: 0, audit: true });
+    }
+    plan
+}
+
+// ------------------------------------------------------------------------------------------------
+// F-retopic: two overlapping DeleteTopic requests for one name, one of them slow (held up on its
+// way to the topic actor), while the name is created again; afterwards the name is read and listed.
+// ------------------------------------------------------------------------------------------------
+
+pub fn f_retopic(seed: u64) -> Plan {
+    let mut rng = Rng::new(seed);
+    let mut plan = Plan { seed, family: "retopic".into(), final_drain: true, health_probe: true, ..Default::default() };
+    plan.tags.push("names".into());
+    plan.tags.push("audit_lists".into());
+    plan.knobs = knobs(&mut rng, true, 0);
+    plan.knobs.site_mask = if rng.chance(500) { u64::MAX } else { rng.next() | rng.next() };
+    plan.knobs.stall_permille = *rng.pick(&[150u32, 300, 500]);
+    plan.knobs.stall_max_us = *rng.pick(&[3_000u64, 8_000]);
+    plan.knobs.yield_permille = *rng.pick(&[0u32, 150, 300]);
+    plan.knobs.max_yields = 2;
+    let topic = topic_name("proj-t", 0);
+    let other = topic_name("proj-t", 1);
+    plan.phases.push(Phase { scripts: vec![vec![Step::new(Op::CreateTopic { topic: topic.clone() }), Step::new(Op::CreateTopic { topic: other.clone() })]], advance_us: 0, audit: false });
+    for _ in 0..rng.range(1, 2) {
+        let mut scripts = vec![
+            vec![Step::after(rng.below(300), Op::DeleteTopic { topic: topic.clone() })],
+            vec![Step::after(rng.below(300), Op::DeleteTopic { topic: topic.clone() })],
+        ];
+        let mut again = Vec::new();
+        for _ in 0..rng.range(1, 3) {
+            again.push(Step::after(rng.below(3) * rng.below(2_500), Op::CreateTopic { topic: topic.clone() }));
+        }
+        if rng.chance(400) {
+            again.push(Step::after(rng.below(2_000), Op::GetTopic { topic: topic.clone() }));
+        }
+        scripts.push(again);
+        plan.phases.push(Phase { scripts, advance_us: 0, audit: true });
+        let mut s = vec![Step::new(Op::GetTopic { topic: topic.clone() })];
+        s.push(Step::new(Op::Walk { kind: ListKind::Topics, parent: "projects/proj-t".into(), page_size: *rng.pick(&[1i32, 1000]) }));
+        if rng.chance(500) {
+            s.push(Step::new(Op::Publish { topic: topic.clone(), msgs: msgs(&mut rng, 1, false) }));
+        }
+        if rng.chance(500) {
+            s.push(Step::new(Op::CreateTopic { topic: topic.clone() }));
+            s.push(Step::new(Op::GetTopic { topic: topic.clone() }));
         }
         plan.phases.push(Phase { scripts: vec![s], advance_us: 0, audit: true });
     }
